@@ -214,7 +214,7 @@ class TableBuilder:
         self._pending = None
         alias = dict(pend.get("alias", {}))          # parameter -> (stream class, in scope at the call site)
         key = (qual, in_priv_scope, lead, tuple(sorted(param_prov.items())), tuple(sorted(alias.items())),
-               bool(pend.get("guard")))
+               bool(pend.get("guard")), tuple(sorted(pend.get("path", {}).items())))
         if key in self._visited:
             return
         self._visited.add(key)
@@ -226,6 +226,8 @@ class TableBuilder:
         ctx = {"qual": qual, "cls": cls, "fresh": fresh, "params": {a.arg for a in fn.args.args},
                "param_prov": param_prov, "top": lead is None}
         ctx["alias"] = {k: v[0] for k, v in alias.items()}
+        ctx["fn"] = fn
+        ctx["param_path"] = dict(pend.get("path", {}))     # parameter -> what happened to the derived seed on its way here
         self._fn_facts(fn, ctx)
         self.reach.setdefault(qual, "walked")
         scopes = ({"self.rng"} if in_priv_scope else set()) | {k for k, v in alias.items() if v[1]}
@@ -385,6 +387,55 @@ class TableBuilder:
             return "unknown"
         return None
 
+    def _seed_path(self, expr, ctx, scopes, at, _depth=0):
+        """(provenance, transformations) of an expression used as the integer seed of a kernel / handed on to a helper
+        that will use it so.  provenance: True/False = it is a `self.rng.<draw>(…)` made inside / outside the scope (directly
+        or through parameters), None = it is not derived from a private draw.  transformations: everything between the
+        draw and this use that can change the value or replace it — must be empty ("passed unchanged")."""
+        inner = expr
+        path = []
+        while isinstance(inner, ast.Call) and _chain(inner.func) == "int" and len(inner.args) == 1 and not inner.keywords:
+            inner = inner.args[0]                       # int(x): the kernels take C ints anyway
+        if isinstance(inner, ast.Call) and _chain(inner.func) and self.classify(_chain(inner.func), ctx) == "priv":
+            return "self.rng" in scopes, path
+        if isinstance(inner, ast.Name) and inner.id in ctx.get("param_prov", {}):
+            nm = inner.id
+            path = list(ctx.get("param_path", {}).get(nm, []))
+            fn = ctx.get("fn")
+            if fn is not None:
+                for n in ast.walk(fn):
+                    # rebinding of the parameter anywhere in the function (`seed = seed or …`, `seed %= …`, `for seed in …`)
+                    if isinstance(n, ast.Name) and n.id == nm and isinstance(n.ctx, (ast.Store, ast.Del)):
+                        stmt = next((st for st in ast.walk(fn) if isinstance(st, ast.stmt) and any(x is n for x in ast.walk(st))
+                                     and not isinstance(st, (ast.FunctionDef, ast.If, ast.For, ast.While, ast.With, ast.Try))), None)
+                        txt = "rebound: " + (ast.unparse(stmt) if stmt is not None else nm)[:60]
+                        if txt not in path:
+                            path.append(txt)
+                    # a condition on the seed deciding whether / how the use is reached (`if seed:`, `if seed > 0:`)
+                    if isinstance(n, (ast.If, ast.While, ast.IfExp)) and at is not None and \
+                            any(isinstance(x, ast.Name) and x.id == nm for x in ast.walk(n.test)):
+                        inside = [n.body, n.orelse] if isinstance(n, ast.IfExp) else list(n.body) + list(n.orelse)
+                        if any(x is at for b in inside for x in ast.walk(b)):
+                            txt = "guard: " + ast.unparse(n.test)[:60]
+                            if txt not in path:
+                                path.append(txt)
+            return ctx["param_prov"][nm], path
+        if isinstance(inner, ast.Name) and ctx.get("fn") is not None and inner.id not in ctx.get("params", set()):
+            # a hoisted local / single-assignment rename: `kseed = self.rng.randint(1e5); kernel(…, kseed)`
+            binds = [st for st in ast.walk(ctx["fn"]) if isinstance(st, ast.Assign) and len(st.targets) == 1
+                     and isinstance(st.targets[0], ast.Name) and st.targets[0].id == inner.id]
+            stores = [x for x in ast.walk(ctx["fn"]) if isinstance(x, ast.Name) and x.id == inner.id
+                      and isinstance(x.ctx, (ast.Store, ast.Del))]
+            if len(binds) == 1 and len(stores) == 1 and _depth < 4:
+                return self._seed_path(binds[0].value, ctx, scopes, at, _depth + 1)
+        d = self._priv_draw_in(expr, ctx, scopes)
+        names = [x.id for x in ast.walk(expr) if isinstance(x, ast.Name) and x.id in ctx.get("param_prov", {})]
+        if d is not None or names:
+            prov = d if d is not None else ctx["param_prov"][names[0]]
+            base = list(ctx.get("param_path", {}).get(names[0], [])) if names else []
+            return prov, base + ["expr: " + ast.unparse(expr)[:60]]
+        return None, []
+
     def _priv_draw_in(self, expr, ctx, scopes) -> bool | None:
         """does `expr` contain a `self.rng.<draw>` call?  returns its in-scope flag (None = no draw)"""
         for n in ast.walk(expr):
@@ -430,15 +481,15 @@ class TableBuilder:
                         seed_arg = kw.value
                 if seed_arg is None and n.args:
                     seed_arg = n.args[-1]
-                prov = False
+                prov, path = False, ["no seed argument"]
                 if seed_arg is not None:
-                    d = self._priv_draw_in(seed_arg, ctx, scopes)
-                    if d is not None:
-                        prov = d
-                    elif isinstance(seed_arg, ast.Name) and seed_arg.id in ctx["param_prov"]:
-                        prov = ctx["param_prov"][seed_arg.id]
+                    pv, path = self._seed_path(seed_arg, ctx, scopes, n)
+                    prov = bool(pv)
+                    if pv is None:
+                        path = path + ["not derived from a private draw: " + ast.unparse(seed_arg)[:50]]
                 rec = {"func": ctx["qual"], "lineno": n.lineno, "kernel": parts[-1], "gen": self._gen["name"],
-                       "in_scope": "self.rng" in scopes, "seed_from_private_draw": bool(prov)}
+                       "in_scope": "self.rng" in scopes, "seed_from_private_draw": bool(prov),
+                       "seed_path": [x.replace('"', "'") for x in path]}
                 if rec not in self.kernel_calls:
                     self.kernel_calls.append(rec)
                 continue
@@ -456,15 +507,17 @@ class TableBuilder:
                 callee = self.funcs[parts[0]]
             if callee is not None:
                 names = [a.arg for a in callee.args.args if a.arg != "self"]
-                prov = {}
+                prov, ppath = {}, {}
                 for i, a in enumerate(n.args):
-                    d = self._priv_draw_in(a, ctx, scopes)
+                    d, pth = self._seed_path(a, ctx, scopes, n)
                     if d is not None and i < len(names):
                         prov[names[i]] = d
+                        ppath[names[i]] = tuple(pth)
                 for kw in n.keywords:
-                    d = self._priv_draw_in(kw.value, ctx, scopes)
+                    d, pth = self._seed_path(kw.value, ctx, scopes, n)
                     if d is not None and kw.arg:
                         prov[kw.arg] = d
+                        ppath[kw.arg] = tuple(pth)
                 # stream objects handed to the callee (`_draw_integer_seed(rng)`, `helper(self.rng)`): its parameter is
                 # that stream, in scope iff the stream is in scope here
                 al = {}
@@ -476,7 +529,7 @@ class TableBuilder:
                         al[prm] = ("fresh", arg.id in scopes or "<fresh-under-seed-is-None>" in scopes)
                     elif isinstance(arg, ast.Name) and arg.id in ctx.get("alias", {}):
                         al[prm] = (ctx["alias"][arg.id], arg.id in scopes)
-                self._pending = {"alias": al, "guard": "<fresh-under-seed-is-None>" in scopes}
+                self._pending = {"alias": al, "guard": "<fresh-under-seed-is-None>" in scopes, "path": ppath}
                 self.walk_fn(callee, owner, ctx["cls"], "self.rng" in scopes, prov, bool(lead))
                 self._pending = None
                 continue
@@ -497,6 +550,7 @@ class TableBuilder:
         self._visited.add(key)
         sub = dict(ctx, qual=qual, top=False)
         self._fn_facts(fn, sub)
+        sub["fn_outer"] = ctx.get("fn")
         sub["locals"] = sub["locals"] | ctx.get("locals", set())
         sub["nested"] = dict(ctx.get("nested", {}), **sub["nested"])
         self.reach.setdefault(qual, "walked (nested)")
@@ -965,6 +1019,14 @@ def _lean_text(t: dict) -> str:
         sep = "," if i + 1 < len(t["kernel_calls"]) else ""
         L.append(f"  ({_b(k['in_scope'])}, {_b(k['seed_from_private_draw'])}){sep}  -- {k['gen']}: {k['func']}:{k['lineno']} {k['kernel']}")
     L.append("]\n")
+    L.append("/-- per Cython kernel call site: what happens to the derived integer seed between the `self.rng` draw and the kernel\n"
+             "(rebinding such as `seed = seed or …`, conditions on it, arithmetic around it; through helper parameters) — every list must be empty -/")
+    L.append("def kernelSeedPaths : List (String × List String) := [")
+    for i, k in enumerate(t["kernel_calls"]):
+        sep = "," if i + 1 < len(t["kernel_calls"]) else ""
+        items = ", ".join('"%s"' % x.replace("\\", "/") for x in k.get("seed_path", []))
+        L.append(f"  (\"{k['gen']}: {k['func']}:{k['lineno']} {k['kernel']}\", [{items}]){sep}")
+    L.append("]\n")
     L.append("/-- .pyx kernels: `srand(seed)` on the int parameter `seed`, once, before any `rand()` -/")
     L.append("def pyxKernels : List (String × Bool) := [" + ", ".join(f"(\"{k['name']}\", {_b(k['ok'])})" for k in t["pyx"]) + "]\n")
     L.append("/-- libc events of every `.pyx` kernel body (cdef helpers expanded; runs of `rand` are one event) -/")
@@ -1026,6 +1088,7 @@ def _extra():
                 "def gens : List (String × Bool × List Nat × List Nat) :=\n  ["
                 + ", ".join(f"(\"{g}\", true, [0], [0])" for g in GENERATORS) + "]\n"
                 "def kernelCalls : List (Bool × Bool) := []\n"
+                "def kernelSeedPaths : List (String × List String) := []\n"
                 "def plumbing : List (String × Bool) := []\n"
                 "def selfWrites : List (String × String × String) := []\n"
                 "def pyxKernels : List (String × Bool) := []\n"
@@ -1037,7 +1100,7 @@ def _extra():
         return text, {"rng_access_table": f"skipped: {e}"}
     cg = t.get("calgary", {})
     return _lean_text(t), {"rng_access_table": "translated", "temp_seed_shape": "translated",
-                           "kernel_seed_provenance": "translated", "pyx_srand_order": "translated",
+                           "kernel_seed_provenance": "translated", "kernel_seed_passed_unchanged": "translated", "pyx_srand_order": "translated",
                            "seed_plumbing": "translated", "instance_state_writes": "translated",
                            "pyx_libc_events": "translated", "closed_world_reachability": "translated",
                            "generator_consumers": "translated",
